@@ -413,6 +413,9 @@ type MixRun struct {
 	Sim *Sim
 	Net *Net
 	Obs *SideObs
+	// ClientSideOnly: the connection fails in this world; only what the client
+	// side promises (interceptors once, Begin ... End with the right error) is judged
+	ClientSideOnly bool
 }
 
 func execMix(e *Env, pp any) {
